@@ -159,6 +159,7 @@ func runC11(a *A) {
 	a.Rule("flow/no-state-between-list-items", 12, func() { a.ruleNoStateBetweenListItems("rsql") })
 	a.Rule("tables/clause-terminators", 12, func() { a.ruleClauseTerminators() })
 	a.Rule("term/caps-scale-with-input", 7, func() { a.ruleCapsScaleWithInput() })
+	a.Rule("flow/alias-default-before-use", 1, func() { a.ruleAliasDefaultBeforeUse() })
 	a.Rule("shape/layout-and-case", 2, func() {
 		li := a.Method("rsql", "Lexer", "lookupIdent")
 		// the switch tag derives from strings.ToUpper/ToLower of the identifier parameter
